@@ -105,6 +105,38 @@ func c14NewPicker(n int, seed int64) (*p2cPicker, map[balancer.SubConn]int, erro
 
 var c14PickInfo = balancer.PickInfo{FullMethodName: "/verif.C14/Call", Ctx: context.Background()}
 
+// c14PickInfos: the result of a pick may depend on the ready set and the
+// picker's state only, never on the PickInfo: live, nil, already cancelled and
+// already expired contexts, assorted method names.
+var c14PickInfos = func() []balancer.PickInfo {
+	cancelled, cancel := context.WithCancel(context.Background())
+	cancel()
+	expired, cancel2 := context.WithDeadline(context.Background(), time.Unix(1, 0))
+	_ = cancel2
+	live, cancel3 := context.WithTimeout(context.Background(), 24*time.Hour)
+	_ = cancel3
+	valued := context.WithValue(context.Background(), c14CtxKey{}, "v")
+	return []balancer.PickInfo{
+		c14PickInfo,
+		{FullMethodName: "/verif.C14/Call", Ctx: cancelled},
+		{FullMethodName: "", Ctx: context.Background()},
+		{FullMethodName: "/verif.C14/Call", Ctx: expired},
+		{FullMethodName: "/verif.C14/Other", Ctx: live},
+		{FullMethodName: "/verif.C14/Call", Ctx: nil},
+		{FullMethodName: "/", Ctx: valued},
+		{FullMethodName: "/a.very.long.package.name.v1alpha1.ServiceWithALongName/MethodWithALongNameToo", Ctx: cancelled},
+	}
+}()
+
+var c14PickInfoNames = []string{"background", "cancelled-ctx", "empty-method", "expired-deadline-ctx", "live-deadline-ctx", "nil-ctx", "ctx-with-value", "long-method+cancelled-ctx"}
+
+type c14CtxKey struct{}
+
+func c14PickInfoN(n int64) (balancer.PickInfo, string) {
+	i := int(uint64(n) % uint64(len(c14PickInfos)))
+	return c14PickInfos[i], c14PickInfoNames[i]
+}
+
 // error kinds: class +1 = acceptable beyond doubt, -1 = unacceptable beyond
 // doubt (the "call failed" codes), 0 = whatever rpc/internal/codes says.
 type c14ErrKind struct {
@@ -291,10 +323,11 @@ func (mon *c14Mon) checkAll(ev string) {
 func (mon *c14Mon) pick() (c14Pending, bool) {
 	now := int64(timex.Now())
 	atomic.AddInt64(&c14Progress, 1)
-	res, err := mon.p.Pick(c14PickInfo)
+	pi, piName := c14PickInfoN(mon.nPick)
+	res, err := mon.p.Pick(pi)
 	mon.nPick++
 	if err != nil {
-		mon.violate("C14:pick:error-with-ready-conns", "Pick returned error %v with %d ready connections", err, mon.n)
+		mon.violate("C14:pick:error-with-ready-conns", "Pick(PickInfo: %s) returned error %v with %d ready connections", piName, err, mon.n)
 		return c14Pending{}, false
 	}
 	i, ok := mon.idx[res.SubConn]
@@ -1252,7 +1285,8 @@ func TestVerifC14Registered(t *testing.T) {
 			}
 			hit := map[int]int{}
 			for k := 0; k < 300; k++ {
-				res, err := pk.Pick(c14PickInfo)
+				pi, _ := c14PickInfoN(int64(k))
+				res, err := pk.Pick(pi)
 				m.Count("registered_picks", 1)
 				if len(ready) == 0 {
 					sawNone = true
@@ -1378,7 +1412,8 @@ func TestVerifC14Race(t *testing.T) {
 				}
 				for it := 0; it < iters && atomic.LoadInt32(&stop) == 0; it++ {
 					t0 := int64(timex.Now())
-					res, err := p.Pick(c14PickInfo)
+					pi, _ := c14PickInfoN(int64(it + w))
+					res, err := p.Pick(pi)
 					t1 := int64(timex.Now())
 					if err != nil {
 						m.Violate("C14:pick:error-with-ready-conns", desc, "concurrent Pick returned %v", err)
@@ -1515,7 +1550,8 @@ func TestVerifC14RaceMultiPicker(t *testing.T) {
 					k := pks[r.Intn(len(pks))]
 					var res balancer.PickResult
 					var err error
-					val, panicked := vk.Recover(func() { res, err = k.p.Pick(c14PickInfo) })
+					pi, _ := c14PickInfoN(int64(it + w))
+					val, panicked := vk.Recover(func() { res, err = k.p.Pick(pi) })
 					atomic.AddInt64(&nPicks, 1)
 					if panicked {
 						atomic.AddInt64(&nPanics, 1)
@@ -1614,7 +1650,8 @@ func TestVerifC14RaceBigSteps(t *testing.T) {
 				r := rand.New(rand.NewSource(seed + int64(w)*7919))
 				for it := 0; it < iters && atomic.LoadInt32(&stop) == 0; it++ {
 					t0 := int64(timex.Now())
-					res, err := p.Pick(c14PickInfo)
+					pi, _ := c14PickInfoN(int64(it + w))
+					res, err := p.Pick(pi)
 					t1 := int64(timex.Now())
 					i, ok := cidx[res.SubConn]
 					if err != nil || !ok || res.Done == nil {
@@ -1788,10 +1825,11 @@ func c14DriveSubConns(m *vk.M, desc string, pk balancer.Picker, ready []balancer
 	for int64(timex.Now()) < end {
 		now := int64(timex.Now())
 		atomic.AddInt64(&c14Progress, 1)
-		res, err := pk.Pick(c14PickInfo)
+		pi, piName := c14PickInfoN(total)
+		res, err := pk.Pick(pi)
 		total++
 		if err != nil {
-			m.Violate("C14:pick:error-with-ready-conns", desc, "Pick returned error %v with %d ready SubConns", err, n)
+			m.Violate("C14:pick:error-with-ready-conns", desc, "Pick(PickInfo: %s) returned error %v with %d ready SubConns", piName, err, n)
 			return picks, false
 		}
 		i, known := idx[res.SubConn]
@@ -1969,7 +2007,8 @@ func TestVerifC14RaceFirstDone(t *testing.T) {
 		bad := false
 		for i := 0; i < k; i++ {
 			start := int64(timex.Now())
-			res, err := p.Pick(c14PickInfo)
+			pi, _ := c14PickInfoN(int64(idx + i))
+			res, err := p.Pick(pi)
 			ci, ok := cidx[res.SubConn]
 			if err != nil || !ok || res.Done == nil {
 				m.Violate("C14:pick:not-a-ready-conn", desc, "Pick returned SubConn %v err %v", res.SubConn, err)
